@@ -162,10 +162,10 @@ Lemma add_var_ok cfg r sc name t suffix r' sc' idx :
   map v_ty (sc_vars sc') = map v_ty (sc_vars sc) ++ [t] /\ Cov cfg r' (refs t).
 Proof.
   unfold add_var. destruct (populate cfg r (refs t) []) as [[r1 imps]| | | |] eqn:P; try discriminate.
-  cbn [bind]. destruct (_ && _); [discriminate|].
+  cbn [bind].
   assert (OK0 : ImpsOK cfg r []) by (intros k b []).
   destruct (populate_ok _ _ _ _ _ _ P OK0) as [OKI [INC [COV [_ NEW]]]].
-  set (vs1 := rename_for_imports (sc_vars sc) (map (imp_qualifier r1) imps)).
+  set (vs1 := rename_for_imports (sc_vars sc) (var_quals r1 imps)).
   set (n1 := match search_import r1 (var_name name t suffix) with Some _ => _ | None => _ end).
   intros E OKV.
   assert (COVT : Cov cfg r1 (refs t)).
